@@ -126,23 +126,6 @@ package server
 //@   modifies *
 //@   preserves State.Panel, State.AdminUID, State.ProxyBook, State.BypassUID
 // session bookkeeping of a user (C15): assumed here not to touch connections or configuration
-//@ func (*ActiveUser).CloseSession
-//@   flag trusted
-//@   requires u != nil
-//@   modifies *
-//@   preserves $KEEP
-//@ func (*userPanel).GetUser
-//@   flag trusted
-//@   requires panel != nil
-//@   ensures userOnSuccess: ret1 == nil ==> ret0 != nil
-//@   modifies *
-//@   preserves $KEEP
-//@ func (*userPanel).GetBypassUser
-//@   flag trusted
-//@   requires panel != nil
-//@   ensures userOnSuccess: ret1 == nil ==> ret0 != nil
-//@   modifies *
-//@   preserves $KEEP
 
 // IsBypass only reads.
 //@ func (*State).IsBypass
@@ -176,8 +159,8 @@ package server
 //@ guardedby ActiveUser.sessionsM: mapof(ActiveUser.sessions)
 //@ guardedby userPanel.activeUsersM: mapof(userPanel.activeUsers)
 //@ guardedby userPanel.usageUpdateQueueM: mapof(userPanel.usageUpdateQueue), userPanel.usageUpdateQueue
-//@ lockinv ActiveUser.sessionsM: sessionsOK: self.sessions != nil
-//@ lockinv userPanel.activeUsersM: usersOK: self.activeUsers != nil
+//@ lockinv ActiveUser.sessionsM: sessionsOK: self.sessions != nil && (forall k uint32 :: mapHas(self.sessions, k) ==> self.sessions[k] != nil)
+//@ lockinv userPanel.activeUsersM: usersOK: self.activeUsers != nil && (forall k [16]byte :: mapHas(self.activeUsers, k) ==> self.activeUsers[k] != nil)
 //@ lockinv userPanel.usageUpdateQueueM: queueOK: self.usageUpdateQueue != nil
 
 //@ func (github.com/cbeuw/Cloak/internal/server/usermanager.UserManager).AuthoriseNewSession
@@ -202,3 +185,87 @@ package server
 //@   ensures locks: !held(u.sessionsM)
 //@   modifies *
 //@   preserves $KEEP
+
+//@ func (*ActiveUser).NumSession
+//@   requires u != nil && !held(u.sessionsM) && locksBelow(u.sessionsM)
+//@   ensures count: ret0 == acq(mapLen(u.sessions))
+//@   ensures locks: !held(u.sessionsM)
+//@   modifies mapof(u.sessions)
+//@ func (*ActiveUser).closeAllSessions
+//@   requires u != nil && !held(u.sessionsM) && locksBelow(u.sessionsM)
+//@   ensures locks: !held(u.sessionsM)
+//@   modifies *
+//@   preserves $KEEP
+//@   flag assumepreserves
+//@   loop 0 invariant lk: held(u.sessionsM) && u != nil && u.sessions != nil && (forall k uint32 :: mapHas(u.sessions, k) ==> u.sessions[k] != nil)
+// TerminateActiveUser: usage is queued, every session is closed, the record is removed - each step
+// under its own lock, none nested.
+//@ func (*userPanel).TerminateActiveUser
+//@   requires panel != nil && user != nil && holdsNone()
+//@   ensures locks: holdsNone()
+//@   modifies *
+//@   preserves $KEEP
+//@   flag assumepreserves
+// CloseSession: closing the last session of a user terminates the user (after sessionsM is released).
+//@ func (*ActiveUser).CloseSession
+//@   requires u != nil && u.panel != nil && holdsNone()
+//@   atcall TerminateActiveUser requires unlocked: holdsNone()
+//@   ensures locks: holdsNone()
+//@   modifies *
+//@   preserves $KEEP
+//@   flag assumepreserves
+
+// GetUser / GetBypassUser (C15, C17): test-and-set of the active-user record under activeUsersM: an
+// existing record is returned and NEVER replaced; a new one is created only after the manager accepted
+// the UID, and is registered before the lock is released.
+//@ func github.com/cbeuw/Cloak/internal/multiplex.MakeValve
+//@   flag trusted
+//@   requires positiveRates: rxRate > 0 && txRate > 0
+//@   ensures ret0 != nil && fresh(ret0)
+//@ func (*userPanel).GetUser
+//@   requires panel != nil && panel.Manager != nil && holdsNone()
+//@   ensures userOnSuccess: ret1 == nil ==> ret0 != nil
+//@   ensures neverReplaces: forall k [16]byte :: acq(mapHas(panel.activeUsers, k)) ==> mapHas(panel.activeUsers, k) && panel.activeUsers[k] == acq(panel.activeUsers[k])
+//@   ensures refusedChangesNothing: ret1 != nil ==> ret0 == nil && (forall k [16]byte :: mapHas(panel.activeUsers, k) == acq(mapHas(panel.activeUsers, k)))
+//@   ensures locks: holdsNone()
+//@   modifies *
+//@   preserves $KEEP
+//@ func (*userPanel).GetBypassUser
+//@   requires panel != nil && holdsNone()
+//@   ensures userOnSuccess: ret1 == nil ==> ret0 != nil
+//@   ensures neverReplaces: forall k [16]byte :: acq(mapHas(panel.activeUsers, k)) ==> mapHas(panel.activeUsers, k) && panel.activeUsers[k] == acq(panel.activeUsers[k])
+//@   ensures locks: holdsNone()
+//@   modifies *
+//@   preserves $KEEP
+
+// Usage accounting (C16). The valve's counters are ghost state rx(v)/tx(v): Nullify returns them and
+// sets them to zero (swap), GetRx/GetTx only read. rx = client to server = upload.
+//@ func (github.com/cbeuw/Cloak/internal/multiplex.Valve).Nullify
+//@   flag trusted
+//@   ensures moved: int(ret0) == old(ghostget("rx", recv)) && int(ret1) == old(ghostget("tx", recv)) && ghostget("rx", recv) == 0 && ghostget("tx", recv) == 0
+//@   modifies heap(GU_rx), heap(GU_tx)
+//@ func (github.com/cbeuw/Cloak/internal/multiplex.Valve).GetRx
+//@   flag trusted
+//@   ensures int(ret0) == ghostget("rx", recv)
+//@ func (github.com/cbeuw/Cloak/internal/multiplex.Valve).GetTx
+//@   flag trusted
+//@   ensures int(ret0) == ghostget("tx", recv)
+
+// updateUsageQueueForOne: the user's unreported traffic is MOVED from the valve into the pending
+// queue entry of that user: upload to up, download to down, exactly once (the valve reads zero after).
+//@ func (*userPanel).updateUsageQueueForOne
+//@   requires panel != nil && user != nil && !held(panel.usageUpdateQueueM) && locksBelow(panel.usageUpdateQueueM)
+//@   ensures drained: !user.bypass ==> ghostget("rx", user.valve) == 0 && ghostget("tx", user.valve) == 0
+//@   ensures queued: !user.bypass ==> mapHas(panel.usageUpdateQueue, user.arrUID) && panel.usageUpdateQueue[user.arrUID] != nil && panel.usageUpdateQueue[user.arrUID].up != nil && panel.usageUpdateQueue[user.arrUID].down != nil
+//@   ensures newEntryUp: !user.bypass && !acq(mapHas(panel.usageUpdateQueue, user.arrUID)) ==> int(*(panel.usageUpdateQueue[user.arrUID].up)) == old(ghostget("rx", user.valve))
+//@   ensures newEntryDown: !user.bypass && !acq(mapHas(panel.usageUpdateQueue, user.arrUID)) ==> int(*(panel.usageUpdateQueue[user.arrUID].down)) == old(ghostget("tx", user.valve))
+//@   ensures sameEntry: !user.bypass && acq(mapHas(panel.usageUpdateQueue, user.arrUID)) ==> panel.usageUpdateQueue[user.arrUID] == acq(panel.usageUpdateQueue[user.arrUID])
+//@   ensures addedUp: !user.bypass && acq(mapHas(panel.usageUpdateQueue, user.arrUID)) && inInt64(int(acq(*(panel.usageUpdateQueue[user.arrUID].up))) + old(ghostget("rx", user.valve))) ==> int(*(panel.usageUpdateQueue[user.arrUID].up)) == int(acq(*(panel.usageUpdateQueue[user.arrUID].up))) + old(ghostget("rx", user.valve))
+//@   ensures addedDown: !user.bypass && acq(mapHas(panel.usageUpdateQueue, user.arrUID)) && inInt64(int(acq(*(panel.usageUpdateQueue[user.arrUID].down))) + old(ghostget("tx", user.valve))) ==> int(*(panel.usageUpdateQueue[user.arrUID].down)) == int(acq(*(panel.usageUpdateQueue[user.arrUID].down))) + old(ghostget("tx", user.valve))
+//@   ensures othersKept: forall k [16]byte :: k != user.arrUID ==> mapHas(panel.usageUpdateQueue, k) == acq(mapHas(panel.usageUpdateQueue, k)) && panel.usageUpdateQueue[k] == acq(panel.usageUpdateQueue[k])
+//@   ensures bypassUntouched: user.bypass ==> ghostget("rx", user.valve) == old(ghostget("rx", user.valve))
+//@   ensures locks: !held(panel.usageUpdateQueueM)
+//@   modifies mapof(panel.usageUpdateQueue), panel.usageUpdateQueue, heap(GU_rx), heap(GU_tx), heap(B_Int)
+//@   flag noframe
+//@ ghost func inInt64(x int) bool { return -9223372036854775808 <= x && x <= 9223372036854775807 }
+//@ lockinv userPanel.usageUpdateQueueM: pairsOK: forall k [16]byte :: mapHas(self.usageUpdateQueue, k) ==> self.usageUpdateQueue[k] != nil && self.usageUpdateQueue[k].up != nil && self.usageUpdateQueue[k].down != nil
